@@ -121,6 +121,9 @@ var setDefs = []setDef{
 	{Name: "ckks-4", Scheme: "ckks", H: 4, MaxLvl: 2, NP: 1, cl: ckks.ParametersLiteral{LogN: 10, LogQ: []int{60, 45, 45}, LogP: []int{55}, LogDefaultScale: 25}, logS: 2},
 	{Name: "ckks-8-2P", Scheme: "ckks", H: 8, MaxLvl: 3, NP: 2, cl: ckks.ParametersLiteral{LogN: 10, LogQ: []int{58, 45, 45, 45}, LogP: []int{60, 60}, LogDefaultScale: 25}, logS: 3},
 	{Name: "ckks-16-full", Scheme: "ckks", H: 16, MaxLvl: 2, NP: 1, cl: ckks.ParametersLiteral{LogN: 5, LogQ: []int{60, 45, 45}, LogP: []int{55}, LogDefaultScale: 25}, logS: 4},
+	// 64 slots with a 60-bit prime in the chain: dense matrices reach baby-step blocks of 8 diagonals, the lazy-accumulation threshold
+	{Name: "ckks-64-q60", Scheme: "ckks", H: 64, MaxLvl: 1, NP: 1, cl: ckks.ParametersLiteral{LogN: 7, LogQ: []int{60, 45}, LogP: []int{61}, LogDefaultScale: 25}, logS: 6},
+	{Name: "bgv-2x64-q60", Scheme: "bgv", H: 64, MaxLvl: 1, NP: 1, bl: bgv.ParametersLiteral{LogN: 7, LogQ: []int{60, 46}, LogP: []int{61}, PlaintextModulus: 257}},
 	{Name: "ckks-ci-8", Scheme: "ckks", H: 8, MaxLvl: 2, NP: 1, cl: ckks.ParametersLiteral{LogN: 10, LogQ: []int{60, 45, 45}, LogP: []int{55}, LogDefaultScale: 25, RingType: ring.ConjugateInvariant}, logS: 3},
 }
 
@@ -749,6 +752,20 @@ func Main(args []string) int {
 		}
 		for i := 0; i < *samples; i++ {
 			emit(sample(rng, d, true))
+		}
+		// dense matrices (every diagonal) at every ratio: the longest baby-step blocks, where the lazy accumulation of the
+		// inner loop reaches its reduction threshold when a 60-bit prime is in the chain
+		if *samples > 0 {
+			all := make([]int, d.H)
+			for i := range all {
+				all[i] = i
+			}
+			for _, ratio := range []int{0, 1, 2, 3} {
+				for _, kind := range []string{"random", "ones"} {
+					emit(scen{Set: d.Name, H: d.H, Mode: "new", LvlIn: d.MaxLvl, LvlRecv: d.MaxLvl, LvlP: 0, Kind: kind,
+						Mats: []matCfg{{Ks: all, Ratio: ratio, Lvl: d.MaxLvl}}})
+				}
+			}
 		}
 	}
 	res := tr.Result{Events: w.N, Cases: n}
